@@ -87,8 +87,23 @@ def run(pid, tier, args):
         rawpath = os.path.join(wd, "raw.json")
         gen_lex.write(rawpath, alpha_s, cases)
         tf = os.path.join(wd, "stateful.ndjson")
-        vlib.vh(vhbin, ["lexstream-record", rawpath, "4", "stateful,simple"], outfile=tf)
+        sx = os.path.join(wd, "sextra.json")
+        json.dump(["\ufeffab", "\ufeff", "a\ufeffb\n\ufeff", "\ufeff\n\u00e9"], open(sx, "w"))   # byte-order mark: no entry point may strip it
+        vlib.vh(vhbin, ["lexstream-record", rawpath, "3" if tier == "quick" else "4", "stateful,simple", sx], outfile=tf)
         n1 = validate_file(wd, tf, v, pid, "stateful/simple")
+        # generated lexers (compiled `participle gen lexer` output) through LexString, Lex(reader) and LexBytes
+        from props import genlexer
+        gcases = [c for c in gen_lex.family(vlib.seed(), 0 if tier == "quick" else 30, supported_only=True)]
+        if tier == "quick":
+            gcases = [c for c in gcases if c["id"] in ("G1", "G3", "G7", "G8", "G9", "G23", "G28")]
+        graw = os.path.join(wd, "graw.json")
+        gen_lex.write(graw, alpha_s, gcases)
+        gen = genlexer.build_generator(wd)
+        vlib.vh(vhbin, ["gen-lexers", graw, gen, os.path.join(wd, "harness-src", "genlex")])
+        vhgen = genlexer.build_with_generated(wd, v, pid, {c["id"]: c for c in gcases})
+        tfg = os.path.join(wd, "generated.ndjson")
+        vlib.vh(vhgen, ["lexstream-record", graw, "3" if tier == "quick" else "4", "generated", sx], outfile=tfg)
+        n1 += validate_file(wd, tfg, v, pid, "generated")
         # text/scanner based lexers: Go-token alphabet
         traw = os.path.join(wd, "traw.json")
         gen_lex.write(traw, list("ae1qsnmtd") if tier == "quick" else list("ae1qsnmtdk"), [])
@@ -118,5 +133,5 @@ def run(pid, tier, args):
         v.notes["family"] = "Advance: all inputs <= %d over {a, newline, e-acute(2 bytes), invalid byte, CR} x all span splittings; streams: %d successful lexes (stateful+simple maps x all inputs <= 4 over %s; text/scanner default and comment-preserving x all inputs over %s)" % (
             4 if tier == "quick" else 6, n1 + n2, "".join(alpha_s), "a e-acute 1 \" space newline CR tab .")
         v.cov["exhaustive"] = True
-        v.assumptions += ["only successful lexes are judged", "generated lexers are judged for C04 inside the C05 check (same LexStream validation)"]
+        v.assumptions += ["only successful lexes are judged", "generated lexers: curated supported-class definitions compiled from the real generator output"]
     return v.finish()
